@@ -84,7 +84,7 @@ def file_api_cases(ck, cases, nmax):
         ilines, imeta = [], []
         for (c, fmt, outp, names, seqs, split), o in zip(meta, impl):
             if not o.startswith('OK') or not os.path.exists(outp):
-                if split:
+                if split and o.startswith('FAIL'):
                     # a split set may be refused where the single file is accepted (kind decided per file; C04's recorded finding,
                     # and a first file must hold two records): the property speaks about accepted inputs only
                     ck.count('file api: split input not accepted (skipped)')
